@@ -13,7 +13,7 @@ PROPS = {
     "C09": [("u_dcefx", "quick"), ("u_ceffect", "quick")],
     "C11": [("u_bp", "quick"), ("u_pratt", "quick")],
     "C04": [("u_mls", "quick"), ("u_input", "quick"), ("u_pcore", "quick"), ("u_tree", "quick"), ("u_kind", "quick"), ("u_grammar", "quick"), ("u_parse", "quick"), ("u_occurs", "quick")],
-    "C12": [("u_mls", "quick"), ("u_input", "quick"), ("u_pcore", "quick"), ("u_tree", "quick"), ("u_kind", "quick"), ("u_grammar", "quick"), ("u_parse", "quick")],
+    "C12": [("u_lex", "quick"), ("u_mls", "quick"), ("u_input", "quick"), ("u_pcore", "quick"), ("u_tree", "quick"), ("u_kind", "quick"), ("u_grammar", "quick"), ("u_parse", "quick")],
 }
 
 
